@@ -246,6 +246,11 @@ class ContiguousBlockAllocator():
         # // this 'if' prevents an error if a Buffer object is freed twice
         if addr is None:
             return
+        if addr < self.addr_offset:
+            # Not an address of this allocator (e.g. a hardware bus index
+            # below the first private bus), the negative list index would
+            # wrap around and free an unrelated block.
+            return
         block = self._array[addr - self.addr_offset]
         if block is not None and block.used:
             block.used = False
